@@ -96,6 +96,10 @@ def x_hist(ctx, case):
                 cur -= set(gone)
             if spec.get("t1") is not None:
                 now = H.TIMES[spec["t1"]]
+            if spec.get("no_start"):
+                # reported without startTest (what 3.12.1's skips do): every event of the test is made when
+                # the outcome arrives
+                t_start = now
             tests.append({"spec": spec, "t_start": t_start, "t_end": now, "tags": frozenset(cur)})
     # ---- stream automaton ---------------------------------------------------------------------
     # split the stream into per-test segments: from an 'inprogress' event to the final status of
@@ -118,13 +122,19 @@ def x_hist(ctx, case):
         k = occurrence.get(spec["id"], 0)
         occurrence[spec["id"]] = k + 1
         evs = (segments.get(spec["id"], []) + [[]] * (k + 1))[k]
-        ok = bool(evs) and evs[0]["test_status"] == "inprogress" and evs[0]["file_name"] is None
-        if ok and t["t_start"] is not None:
-            ok = evs[0]["timestamp"] == t["t_start"]
-        elif ok:
-            ok = evs[0]["timestamp"] is not None
-        ctx.check(ok, "stream.inprogress-at-startTest", lambda: {"test": spec["id"], "events": evs[:2], **detail()})
-        body = evs[1:]
+        if spec.get("no_start"):
+            ctx.check(bool(evs) and not any(p["test_status"] == "inprogress" for p in evs),
+                      "stream.inprogress-at-startTest",
+                      lambda: {"test": spec["id"], "never started, yet": evs[:2], **detail()})
+            body = evs
+        else:
+            ok = bool(evs) and evs[0]["test_status"] == "inprogress" and evs[0]["file_name"] is None
+            if ok and t["t_start"] is not None:
+                ok = evs[0]["timestamp"] == t["t_start"]
+            elif ok:
+                ok = evs[0]["timestamp"] is not None
+            ctx.check(ok, "stream.inprogress-at-startTest", lambda: {"test": spec["id"], "events": evs[:2], **detail()})
+            body = evs[1:]
         finals = [p for p in body if p["test_status"] in FINALS]
         files = [p for p in body if p["file_name"] is not None]
         ctx.check(len(finals) == 1 and body and body[-1] is finals[0] and finals[0]["file_name"] is None
@@ -288,6 +298,9 @@ def rand_history(rng):
             spec["t1"] = rng.randrange(len(H.TIMES))
         if rng.random() < 0.4:
             spec["tags_in"] = [H.random_tag_change(rng) for _ in range(rng.randint(1, 2))]
+        if outcome == "addSkip" and rng.random() < 0.3:
+            spec["no_start"] = True     # "In Python 3.12.1 skipped tests may not call startTest()"
+            spec.pop("tags_in", None)
         h.append(["test", spec])
     h.append(["stopTestRun"])
     return h
@@ -333,6 +346,30 @@ def run(ctx):
                                                  ["stopTestRun"]]}, sample=(n % 97 == 0))
     ctx.note_space("6 outcomes x forms x {0, 1, 2 details} x chunkings of <= 3 chunks (incl. empty and "
                    "repeated chunks)", n)
+    # a skip reported WITHOUT startTest (3.12.1's unittest does that) right after an ordinary test
+    n = 0
+    for first in H.OUTCOMES:
+        for form in ("reason", "details"):
+            for tags in ([], [[["a"], []]]):
+                if not ctx.mine():
+                    continue
+                n += 1
+                a = {"id": "t1", "outcome": first, "form": "none" if first in ("addSuccess", "addUnexpectedSuccess") else "exc",
+                     "kind": "placeholder", "t0": 1, "t1": 2, "token": "<<X1>>"}
+                if first == "addSkip":
+                    a.update(form="reason", reason="<<R0>>")
+                if tags:
+                    a["tags_in"] = tags
+                b = {"id": "t2", "outcome": "addSkip", "form": form, "kind": "placeholder", "no_start": True, "t1": 3}
+                if form == "reason":
+                    b["reason"] = "<<R1>>"
+                else:
+                    b["details"] = [{"name": "reason", "chunks": ["r\xe9ason".encode("utf8").hex()],
+                                     "type": ["text", "plain", {"charset": "utf8"}]}]
+                c = dict(a, id="t3")
+                ctx.execute("hist", {"history": [["startTestRun"], ["test", a], ["test", b], ["test", c], ["stopTestRun"]]})
+    ctx.note_space("ordinary test, skip reported without startTest, ordinary test: 6 first outcomes x 2 skip forms x "
+                   "tags on/off", n)
     ctx.notes["random_cases"] = True
     for i in range(ctx.scale(6000, 400000)):
         if ctx.out_of_time():
